@@ -3,7 +3,8 @@
 L1 default layers   L2 main-file scan high->low, stops at first hit, only NOFILE continues   L3 no look at the content
 L4 main object first in the history   L5 drop-in layers low->high, always   L6 directory postfixes in order
 L7 scandir sorted by alphasort, walked ascending   L8 suffix filter   L9 accepted files appended   L10 same-name masking
-L11 merge direction   L12 nothing found = ECONF_NOFILE   L13 NULL/NULL refused   L14 suffix gets its dot"""
+L11 merge direction   L12 nothing found = ECONF_NOFILE   L13 NULL/NULL refused   L14 suffix gets its dot
+L15 ECONF_NOFILE from the gate only for a file that is not there   L16 absolute names stored as given   L17 (conf_dirs, conf_count) pair consistent (= C12.F3)"""
 from sa.ast import render
 from sa.facts import Inconclusive
 from sa import query, loops
@@ -514,10 +515,119 @@ def l13(prog, ctx):
                  "combine_strings() (crash) instead of an error code", key="null-null", path=cfg.describe_path(wp))
 
 
+PROBES_INT = ("lstat", "stat", "fstat", "access", "faccessat", "fstatat", "open", "openat")
+PROBES_PTR = ("fopen", "realpath", "opendir", "fdopen")
+
+
+def l15_l17(prog, ctx):
+    """L15 ECONF_NOFILE means "no such file" and nothing else (it is the one code that lets the main-file scan fall through
+    to a lower layer).   L16 a file found under an absolute name is stored under that name (same-name masking compares the
+    stored names).   L17 the drop-in directory list that is scanned is a consistent (list, count) pair (= C12.F3)."""
+    from rules import common
+    from sa.dataflow import ReachingDefs
+    n15 = 0
+    for fname in (common.GATE, common.PARSER, "get_absolute_path"):
+        if not prog.has_fn(fname):
+            continue
+        f = prog.fn(fname)
+        ctx.touch(f)
+        cfg = f.cfg
+        rd = ReachingDefs(f)
+        sites = [r for r in query.returns_of_constant(f, "ECONF_NOFILE")]
+        for lhs, rhs, st, kind in query.stores(f):
+            if kind == "=" and rhs is not None and query.returned_constant_expr(rhs) == "ECONF_NOFILE" and st.j.get("synthetic") != "return":
+                sites.append(st)
+
+        def probe_of(n):
+            n = n.strip()
+            if n.k == "CallExpr" and n.j.get("callee") in PROBES_INT + PROBES_PTR:
+                return n.j["callee"]
+            if n.k == "DeclRefExpr" and n.j.get("dk") == "local":
+                ds = [d for d in rd.defs if d.var == n.j["name"] and d.kind in ("init", "assign") and d.rhs is not None]
+                if len(ds) == 1:
+                    return probe_of(ds[0].rhs)
+            return None
+
+        def failed_probe(lit, b, i):
+            if lit is None:
+                return False
+            if lit.kind == "truth":
+                c = probe_of(lit.node)
+                return (c in PROBES_PTR and not lit.pol) or (c in PROBES_INT and lit.pol)
+            for x, y in ((lit.lhs, lit.rhs), (lit.rhs, lit.lhs)):
+                c = probe_of(x)
+                if c in PROBES_INT:
+                    yv = y.const_value()
+                    if lit.kind == "eq" and yv == -1 and lit.pol:
+                        return True
+                    if lit.kind == "eq" and yv == 0 and not lit.pol:
+                        return True
+                    if lit.kind == "lt" and x is lit.lhs and yv == 0 and lit.pol:
+                        return True
+            return False
+        for st in sites:
+            n15 += 1
+            ok, cut = cfg.all_paths_cut(cfg.block_of(st), failed_probe)
+            inst = "%s: ECONF_NOFILE only when the file is not there" % fname
+            if ok and cut:
+                ctx.ok("L15", inst, st.where, "every path to this exit carries a failed lstat/stat/fopen/realpath")
+            else:
+                ctx.fail("L15", inst, st.where,
+                         "ECONF_NOFILE is produced for a file that EXISTS (no failed lstat/stat/fopen/realpath on the way): the main-file scan treats this code as "
+                         "'try the next lower layer', so such a file - e.g. a link to /dev/null placed in /etc to silence the vendor file - no longer "
+                         "hides the lower layers", key="nofile-for-existing:%s" % fname)
+    ctx.counts["L15 ECONF_NOFILE exits of the gate"] = n15
+    if n15 < 2:
+        ctx.inconclusive("L15", "ECONF_NOFILE exits of the gate", "", "found %d, expected at least the lstat and fopen exits" % n15)
+    # L16
+    if prog.has_fn("get_absolute_path"):
+        gap = prog.fn("get_absolute_path")
+        cfg = gap.cfg
+        pname = gap.params[0]["name"]
+
+        def relative(lit, b, i):
+            if lit is None or lit.kind != "eq":
+                return False
+            for x, y in ((lit.lhs, lit.rhs), (lit.rhs, lit.lhs)):
+                if y.const_value() == 47 and render(x) in ("*" + pname, pname + "[0]"):
+                    return not lit.pol
+            return False
+        rps = gap.calls(("realpath", "canonicalize_file_name"))
+        bad = None
+        for c in rps:
+            ok, cut = cfg.all_paths_cut(cfg.block_of(c), relative)
+            if not (ok and cut):
+                bad = c
+        if bad is not None:
+            ctx.fail("L16", "a file found under an absolute name is stored under that name", bad.where,
+                     "%s() is applied to absolute names too: a drop-in that is a symbolic link is stored under the name of its TARGET, and the same-name "
+                     "masking of merge_econf_files compares the stored names - the link no longer masks (or is masked by) its namesakes" % bad.j["callee"],
+                     key="abs-path-resolved")
+        elif rps:
+            ctx.ok("L16", "a file found under an absolute name is stored under that name", rps[0].where, "realpath() only on the `*%s != '/'` branch" % pname)
+        else:
+            ctx.ok("L16", "a file found under an absolute name is stored under that name", gap.where, "no link resolution at all")
+    else:
+        ctx.inconclusive("L16", "a file found under an absolute name is stored under that name", "", "get_absolute_path vanished")
+    # L17 = C12.F3
+    try:
+        from sa.report import Ctx as _Ctx
+        from rules import C12 as _C12
+        sub = _Ctx(ctx.prop, ctx.tier, prog)
+        _C12.f1_f3_f5(prog, sub)
+        for ob in sub.obs:
+            if ob.rule == "F3" and ("pair" in ob.instance or "own list" in ob.instance):
+                ob.rule = "L17"
+                ctx.obs.append(ob)
+    except Inconclusive as e:
+        ctx.inconclusive("L17", "the drop-in directory list is a consistent pair", "", str(e))
+
+
 def run(prog, ctx):
     l1(prog, ctx)
     l2_l5(prog, ctx)
     l6_l9(prog, ctx)
     l10_l11(prog, ctx)
     l13(prog, ctx)
+    l15_l17(prog, ctx)
     ctx.floor("C01 obligations", len([o for o in ctx.obs if o.rule.startswith("L")]), 20)
